@@ -495,8 +495,13 @@ func (fv *FV) checkFrame(ex *Exit, k int, at ast.Node) {
 			}
 		}
 	}
+	wholeComp := map[string]bool{}
 	for _, l := range locs {
 		switch l.kind {
+		case "comp":
+			for _, c := range cellComps(l.comp, l.typ) {
+				wholeComp[c] = true
+			}
 		case "object":
 			addObj(l.ref, l.typ)
 		case "cell":
@@ -527,7 +532,7 @@ func (fv *FV) checkFrame(ex *Exit, k int, at ast.Node) {
 	}()
 	for _, c := range comps {
 		srt := fv.compSort[c]
-		if strings.HasPrefix(c, "ghost$") {
+		if strings.HasPrefix(c, "ghost$") || wholeComp[c] {
 			continue
 		}
 		idxS, _ := arrParts(srt)
